@@ -58,6 +58,20 @@ Theorem C20_mock_no_panic_iff : forall ao ab ops,
   ((exists d, run (D (PositiveMap.empty Z) ao ab) ops = Ok d) <-> (exists s, scan ao ab [] (flat_map requested ops) = Ok s)).
 Proof. exact mock_no_panic_iff. Qed.
 
+(* ANY history (flag changes and set_pixel included): the array implementation and the array-free reference machine
+   (ref_run: state = both flags + the list of cell events so far; content = last event; same panic rule) either panic at the
+   same operation with the same kind, or both finish, with equal flags and get_pixel reading the reference content.
+   agree Rel x y := both Ok and related, or both Panic with the same kind. *)
+Theorem C20_mock_refines_reference : forall ops,
+  agree (fun d s => allow_overdraw d = r_ao s /\ allow_oob d = r_ab s /\
+                    forall p, get_pixel d p = Ok (if in_displayb p then content (r_evs s) p else None))
+        (run new_display ops) (ref_run (RS false false []) ops).
+Proof. exact mock_refines_reference. Qed.
+
+Theorem C20_mock_panic_iff_any_history : forall ops k,
+  run new_display ops = Panic k <-> ref_run (RS false false []) ops = Panic k.
+Proof. exact mock_panic_iff_any. Qed.
+
 Theorem C20_only_documented_panics : forall d o k,
   apply_op d o = Panic k -> k = POutOfBounds \/ k = POverdraw \/ k = PSetPixel.
 Proof. exact apply_op_panic_kind. Qed.
